@@ -226,7 +226,7 @@ class StatementInserter(ast.NodeTransformer, EmitterMixin):
             return docstring
         with fast.location_of((docstring + [fundef_copy])[0]):
             if self.handler_predicate_by_event[TraceEvent.after_function_execution](
-                fundef_copy
+                node
             ):
                 ret: List[ast.AST] = [
                     fast.Try(
@@ -272,7 +272,7 @@ class StatementInserter(ast.NodeTransformer, EmitterMixin):
                                     )
                                     if self.handler_predicate_by_event[
                                         TraceEvent.before_function_body
-                                    ](fundef_copy)
+                                    ](node)
                                     else None
                                 ),
                             ]
@@ -281,14 +281,14 @@ class StatementInserter(ast.NodeTransformer, EmitterMixin):
                             ret
                             if self.handler_predicate_by_event[
                                 TraceEvent.after_function_execution
-                            ](fundef_copy)
+                            ](node)
                             else orig_body
                         ),
                         orelse=orelse,
                     ),
                 ]
             elif self.handler_predicate_by_event[TraceEvent.before_function_body](
-                fundef_copy
+                node
             ):
                 ret = [
                     fast.Expr(
